@@ -3,8 +3,9 @@
    source stays "inside the fragment" although the reference no longer
    describes what a browser and the lexer do (witnesses in props/C06.v):
    a show whose body holds a comment with the closing braces inside, a show
-   between the name of an end tag and its ">", and a backslash in front of an
-   end tag inside a string literal of a script.  o_strict closes them.
+   between the name of an end tag and its ">", a backslash in front of an
+   end tag inside a string literal of a script, and a show inside a shebang
+   line.  o_strict closes them.
    o_raw = false leaves the fragment at the start of a script or style
    element; o_ident = true admits only shows of the form
    "{{" spaces identifier spaces "}}" (ASCII letters, digits, underscore).
@@ -117,7 +118,10 @@ Fixpoint ref_run2 (o : ropt) (fuel : nat) (st : rstate) (off : N) (s : bytes) (a
     end
   end.
 
-Definition ref_contexts2 (o : ropt) (src : bytes) : option (list (N * N)) := ref_run2 o (S (length src)) RData 0 src [].
+(* strict: a source that begins with a shebang line is outside the fragment (the lexer takes the
+   whole line, shows included, for one token) *)
+Definition ref_contexts2 (o : ropt) (src : bytes) : option (list (N * N)) :=
+  if o_strict o && has_prefix src [35; 33] then None else ref_run2 o (S (length src)) RData 0 src [].
 
 Definition ctx_sim_ok2 (o : ropt) (src : bytes) : bool :=
   match ref_contexts2 o src with
